@@ -685,13 +685,31 @@ fn check_num_random(src: &mut Src) -> CaseResult {
     check_num_pair(&a, &b, sample)
 }
 
+/// String repetition by a count <= 0 of any magnitude is null (the manual): run by the jaq binary in a
+/// child process, because a wrong answer here is an attempt to allocate count x length bytes, which ends
+/// the process that makes it.
+fn repetition_by_nonpositive_count(i: usize) -> CaseResult {
+    const STRS: &[&str] = &["\"\"", "\"a\"", "\"abc\"", "(\"ab\" | tobytes)", "\"\u{00e9}\""];
+    const COUNTS: &[&str] = &["0", "-1", "-9223372036854775808", "-9223372036854775809", "-18446744073709551616", "-1180591620717411303424", "(0 - 1267650600228229401496703205376)", "(0 - 9223372036854775807 - 2)", "(-4294967296 * 4294967296 * 4)", "(9223372036854775807 - 9223372036854775807 - 9223372036854775807 - 9223372036854775807 - 9223372036854775807)"];
+    let (s, c, flipped) = (STRS[i % STRS.len()], COUNTS[(i / STRS.len()) % COUNTS.len()], i / (STRS.len() * COUNTS.len()) == 1);
+    let prog = if flipped { format!("({c} * {s})") } else { format!("({s} * {c})") };
+    let case = json!({"command": format!("jaq -nc {prog:?}"), "expected": "null"});
+    vcore::runner::note_case(|| case.to_string());
+    let out = vcore::cli::Cmd::jaq().args(["-nc", &prog]).run().map_err(|e| CaseFail::new("harness-spawn", e.to_string(), json!({})))?;
+    if out.status != 0 || out.out_str().trim() != "null" {
+        return Err(CaseFail::new("string-repetition-by-nonpositive-count", format!("`{prog}` must be null; jaq: exit {} stdout {:?} stderr {:?}", out.status, out.out_str().chars().take(100).collect::<String>(), out.err_str().chars().take(200).collect::<String>()), case));
+    }
+    Ok(CaseOk::new(true, 77_000 + i as u64).class("repetition-by-count-below-the-machine-range").desc(if i % 17 == 0 { Some(case) } else { None }))
+}
+
 pub fn run(mut rep: Report) -> ! {
     rep.set_rule(
         "operand pairs over an integer/float/decimal boundary pool (every integer in machine and arbitrary-precision representation), exhaustively, and random pairs (incl. pairs whose product straddles 2^63), checked against BigInt/IEEE arithmetic in the harness; \
          integer-consuming built-ins run with the same integers stored as machine vs big integer and obtained by different computations (n+2^70-2^70, n*1, ...), outputs and errors must be identical; \
-         non-numeric operator table and the manual's equations on an atom set (exhaustive pairs) and random structured values; non-trivial = result or operand beyond 2^62, mixed classes, or a defined non-numeric case",
+         non-numeric operator table and the manual's equations on an atom set (exhaustive pairs) and random structured values; string repetition by 10 counts <= 0 of every magnitude (machine range boundary, -2^64, -2^70, -2^100, computed big integers) x 5 strings x both operand orders, run by the jaq binary in child processes (a wrong answer is an allocation that ends the process): must be null; non-trivial = result or operand beyond 2^62, mixed classes, or a defined non-numeric case",
     );
     rep.assume("x % 0 with non-integer x and integer 0 is not asserted (property text leaves error vs NaN open); text+byte string mixing and byte-string split by the empty string are not asserted (undocumented)");
+    rep.fixed("string-repetition-by-nonpositive-counts", 5 * 10 * 2, repetition_by_nonpositive_count);
     let pool = num_pool();
     let n = pool.len() as u64;
     rep.extra("num_pool", json!(n));
